@@ -113,7 +113,11 @@ func (c *C08) cliGenParams(x *engine.Ctx) *engine.Violation {
 	}
 	i /= 2
 	batch := 1 + i%6
-	depth := 1 + (i/6)%20
+	depths := []int{1, 2, 3, 4, 5, 6, 7, 8, 9, 10, 11, 12, 13, 14, 15, 16, 18, 20, 22, 24, 26, 28, 30, 31, 32}
+	depth := depths[(i/6)%len(depths)]
+	if mode == rollup.Deletion && depth > 31 {
+		depth = 31
+	}
 	if mode == rollup.Insertion && (1<<uint(depth)) < batch || mode == rollup.Deletion && (1<<uint(depth)) < 2*batch {
 		depth += 4
 	}
@@ -155,8 +159,11 @@ func (c *C08) cliGenParams(x *engine.Ctx) *engine.Violation {
 
 func (c *C08) Run(x *engine.Ctx) *engine.Violation {
 	t := x.T
-	if x.Run < 240 && ops.Bin() != "" {
-		return c.cliGenParams(x) // enumerated CLI sweep: 2 modes x 6 batch sizes x 20 depths
+	if x.Run < 300 && ops.Bin() != "" {
+		return c.cliGenParams(x) // enumerated CLI sweep: 2 modes x 6 batch sizes x 25 depths (1..32)
+	}
+	if t.Chance(1, 3) {
+		return c.helperOnly(x) // the helpers alone over arbitrary in-range parameter sets (no circuit needed)
 	}
 	x.S.Touch("probe:pre_root_short", "probe:post_root_short", "probe:both_roots_short", "probe:commitment_short")
 	mode := rollup.Insertion
@@ -361,4 +368,113 @@ func sortU64(a []uint64) {
 			a[j], a[j-1] = a[j-1], a[j]
 		}
 	}
+}
+
+// helperOnly: ComputeInputHash* over arbitrary in-range parameter sets (any uint32 index, any root and
+// commitment below r, batch sizes 1..40) against the contract packing; the call must be idempotent and
+// must not modify the parameters.
+func (c *C08) helperOnly(x *engine.Ctx) *engine.Violation {
+	t := x.T
+	val := func() *big.Int {
+		switch t.Weighted(6, 2, 1, 1, 1) {
+		case 0:
+			return t.BigBelow(oracle.R)
+		case 1:
+			return t.BigBelow(new(big.Int).Lsh(big.NewInt(1), uint(8*(1+t.Draw(31)))))
+		case 2:
+			return big.NewInt(0)
+		case 3:
+			return new(big.Int).Sub(oracle.R, big.NewInt(1))
+		default:
+			return big.NewInt(int64(1 + t.Draw(255)))
+		}
+	}
+	idx := func() uint32 {
+		switch t.Weighted(3, 1, 1, 1, 1, 2) {
+		case 0:
+			return t.U32()
+		case 1:
+			return 0
+		case 2:
+			return 0xffffffff
+		case 3:
+			return 0x80000000 + uint32(t.Draw(3)) - 1
+		case 4:
+			return uint32([]int{255, 256, 65535, 65536, 1 << 24}[t.Pick(5)])
+		default:
+			return uint32(t.Draw(1000))
+		}
+	}
+	n := 8 + t.Draw(24)
+	for k := 0; k < n; k++ {
+		batch := 1 + t.Draw(8)
+		if t.Chance(1, 5) {
+			batch = 9 + t.Draw(32)
+		}
+		x.S.Eval(1)
+		if t.Chance(1, 2) {
+			p := prover.InsertionParameters{StartIndex: idx()}
+			p.PreRoot, p.PostRoot = *val(), *val()
+			var comms []*big.Int
+			for i := 0; i < batch; i++ {
+				v := val()
+				comms = append(comms, v)
+				p.IdComms = append(p.IdComms, *new(big.Int).Set(v))
+			}
+			pre, post := new(big.Int).Set(&p.PreRoot), new(big.Int).Set(&p.PostRoot)
+			if err := p.ComputeInputHashInsertion(); err != nil {
+				return engine.Violatef("C08/helper=insertion/error", "%v", err)
+			}
+			h1 := new(big.Int).Set(&p.InputHash)
+			p.ComputeInputHashInsertion()
+			want := oracle.InsertionHash(p.StartIndex, pre, post, comms)
+			x.Log.Addf("helper", "insertion", "start=%d batch=%d ok=%v", p.StartIndex, batch, oracle.Mod(h1).Cmp(want) == 0)
+			x.S.Seen(fmt.Sprintf("helper/ins/start%v/b%d", p.StartIndex >= 1<<31, bucket(batch)))
+			if oracle.Mod(h1).Cmp(want) != 0 {
+				return engine.Violatef("C08/helper=insertion/hash-differs/"+shortCause(shortBytes(pre), shortBytes(post))+"/arbitrary-parameters", "start index %d, batch %d, pre 0x%s post 0x%s: helper %s, contract packing %s", p.StartIndex, batch, pre.Text(16), post.Text(16), h1.Text(16), want.Text(16))
+			}
+			if h1.Cmp(&p.InputHash) != 0 {
+				return engine.Violatef("C08/helper=insertion/not-idempotent", "start %d batch %d: a second call returns another hash", p.StartIndex, batch)
+			}
+			if p.PreRoot.Cmp(pre) != 0 || p.PostRoot.Cmp(post) != 0 {
+				return engine.Violatef("C08/helper=insertion/modifies-parameters", "roots changed by the call")
+			}
+			for i := range comms {
+				if p.IdComms[i].Cmp(comms[i]) != 0 {
+					return engine.Violatef("C08/helper=insertion/modifies-parameters", "commitment %d changed by the call", i)
+				}
+			}
+		} else {
+			p := prover.DeletionParameters{}
+			p.PreRoot, p.PostRoot = *val(), *val()
+			var ix []uint32
+			for i := 0; i < batch; i++ {
+				v := idx()
+				ix = append(ix, v)
+				p.DeletionIndices = append(p.DeletionIndices, v)
+			}
+			pre, post := new(big.Int).Set(&p.PreRoot), new(big.Int).Set(&p.PostRoot)
+			if err := p.ComputeInputHashDeletion(); err != nil {
+				return engine.Violatef("C08/helper=deletion/error", "%v", err)
+			}
+			h1 := new(big.Int).Set(&p.InputHash)
+			p.ComputeInputHashDeletion()
+			want := oracle.DeletionHash(ix, pre, post)
+			x.Log.Addf("helper", "deletion", "batch=%d ok=%v", batch, oracle.Mod(h1).Cmp(want) == 0)
+			x.S.Seen(fmt.Sprintf("helper/del/b%d", bucket(batch)))
+			if oracle.Mod(h1).Cmp(want) != 0 {
+				return engine.Violatef("C08/helper=deletion/hash-differs/"+shortCause(shortBytes(pre), shortBytes(post))+"/arbitrary-parameters", "indices %v, pre 0x%s post 0x%s: helper %s, contract packing %s", ix, pre.Text(16), post.Text(16), h1.Text(16), want.Text(16))
+			}
+			if h1.Cmp(&p.InputHash) != 0 {
+				return engine.Violatef("C08/helper=deletion/not-idempotent", "batch %d: a second call returns another hash", batch)
+			}
+			for i := range ix {
+				if p.DeletionIndices[i] != ix[i] {
+					return engine.Violatef("C08/helper=deletion/modifies-parameters", "index %d changed by the call", i)
+				}
+			}
+		}
+	}
+	x.S.Count("probe:helper_only_runs")
+	return nil
 }
